@@ -30,8 +30,10 @@ type resOp struct {
 	A       string   `json:"a"`
 	Ccert   bool     `json:"ccert"`
 	B       bool     `json:"b"`
+	V       int      `json:"v"`
 	Region  string   `json:"region"`
 	Byte    int      `json:"byte"` // driver-side: which byte of the region (-1: middle)
+	Vers    int      `json:"vers"` // connect: the version in force according to the specification
 }
 
 type resObs struct {
@@ -85,6 +87,7 @@ func runHistory(ops []resOp, proto string, capN int) ([]resObs, error) {
 	ssuites := map[string]bool{"CBC": true, "GCM": true}
 	csuites := map[string]bool{"CBC": true, "GCM": true}
 	cauth, ccert, disabled := "none", false, false
+	cvers := uint16(gmtls.VersionTLS12)
 	cache := gmtls.NewLRUClientSessionCache(capN)
 	msOfSid := map[int][]byte{}
 	var out []resObs
@@ -111,6 +114,11 @@ func runHistory(ops []resOp, proto string, capN int) ([]resObs, error) {
 			cauth, ccert = op.A, op.Ccert
 		case "disabled":
 			disabled = op.B
+		case "vers":
+			cvers = gmtls.VersionTLS12
+			if op.V == 11 {
+				cvers = gmtls.VersionTLS11
+			}
 		case "tamper":
 			cs, ok := cache.Get(op.Name)
 			if !ok || cs == nil {
@@ -144,6 +152,11 @@ func runHistory(ops []resOp, proto string, capN int) ([]resObs, error) {
 		case "connect":
 			var o resObs
 			o.Step = step
+			if op.Vers == 11 {
+				cvers = gmtls.VersionTLS11
+			} else if op.Vers == 12 {
+				cvers = gmtls.VersionTLS12
+			}
 			var sc, cc *gmtls.Config
 			if proto == "gm" {
 				sc = &gmtls.Config{GMSupport: &gmtls.GMSupport{}, Certificates: []gmtls.Certificate{f.sig, f.enc}}
@@ -154,7 +167,7 @@ func runHistory(ops []resOp, proto string, capN int) ([]resObs, error) {
 				sc.ClientCAs = f.sm2CA
 			} else {
 				sc = &gmtls.Config{Certificates: []gmtls.Certificate{f.rsa}}
-				cc = &gmtls.Config{InsecureSkipVerify: true, MaxVersion: gmtls.VersionTLS12}
+				cc = &gmtls.Config{InsecureSkipVerify: true, MaxVersion: cvers}
 				if ccert {
 					cc.Certificates = []gmtls.Certificate{f.rsaAuth}
 				}
